@@ -199,8 +199,8 @@ package meta
 //@   opt dead_returns=2
 //@   loop 2: exit info.CharClassTable == nil && !info.WildcardNotNL ==> alK(input, info, 0)
 //@   loop 3: exit !info.WildcardNotNL && found >= info.CharClassMin ==> alK(input, info, found)
-//@   after call 1: lastcall < 0 ==> alK(input, info, 0)
-//@   after call 3: lastcall < 0 ==> alK(input, info, found)
+//@   after call IndexByte: lastcall < 0 ==> alK(input, info, 0)
+//@   after call IndexByte#2: lastcall < 0 ==> alK(input, info, found)
 
 // UTF-8 encoding as arithmetic (the definition, RFC 3629): width and j-th byte of the encoding of r
 //@ spec func u8w(r int) int = ite(r < 128, 1, ite(r < 2048, 2, ite(r < 65536, 3, 4)))
